@@ -68,6 +68,7 @@ func (w *worker) run(ctx context.Context) {
 	flds := field.Parse(w.srcTags.String())
 	var si siterator
 	si.init(flds, cur)
+	si.fltF = w.pp.fltF
 	werrs := 1
 
 	for ctx.Err() == nil {
